@@ -1247,9 +1247,11 @@ class Quantized(Sampler):
     ):
         values = self.sampler.sample(domain, spec, size, random_state)
         quantized = np.round(np.divide(values, self.q)) * self.q
+        # Rounding to a multiple of ``q`` must not leave the domain
+        quantized = np.clip(quantized, domain.lower, domain.upper)
         if not isinstance(quantized, np.ndarray):
             return domain.cast(quantized)
-        return list(quantized)
+        return [domain.cast(x) for x in quantized]
 
     def __eq__(self, other) -> bool:
         return (
